@@ -4,6 +4,7 @@
 #include <ksi/net_uri.h>
 #include <ksi/net_async.h>
 #include <ksi/net_ha.h>
+#include <ksi/blocksigner.h>
 #include <curl/curl.h>
 #include <sys/types.h>
 #include <sys/socket.h>
@@ -296,7 +297,7 @@ static void out_handle(KSI_AsyncHandle *h) {
 	KSI_AsyncHandle_getState(h, &state); kx_out(" state=%d", state);
 	KSI_AsyncHandle_getError(h, &err); KSI_AsyncHandle_getExtError(h, &ext); kx_out(" herr=%d hext=%ld", err, ext);
 	r = KSI_AsyncHandle_getRequestId(h, &id); kx_out(" reqid=%llu", r == KSI_OK ? (unsigned long long)id : 0ull);
-	KSI_AsyncHandle_getRequestCtx(h, &tag); kx_out(" tag=%s", tag ? (const char *)tag : "-");
+	KSI_AsyncHandle_getRequestCtx(h, &tag); kx_out(" tag=%s", (tag && state != KSI_ASYNC_STATE_ERROR_NOTICE && state != KSI_ASYNC_STATE_PUSH_CONFIG_RECEIVED) ? (const char *)tag : "-");
 	if (KSI_AsyncHandle_getParentId(h, &parent) == KSI_OK) kx_out(" parent=%zu", parent);
 	if (state == KSI_ASYNC_STATE_RESPONSE_RECEIVED) {
 		KSI_AggregationResp *ar = NULL; KSI_ExtendResp *er = NULL; KSI_Signature *sig = NULL; KSI_Integer *rid = NULL;
@@ -356,13 +357,45 @@ int kx_net_dispatch(char **tok, int ntok, int *handled) {
 		KSI_CTX *c = kx_ctx(atoi(tok[1])); KSI_Signature *s = *kx_sigslot(atoi(tok[2])); KSI_Signature **slot = kx_sigslot(atoi(tok[3])); KSI_Signature *e = NULL; int rc; const char *api = kx_kv("api");
 		if (api && !strcmp(api, "nearest")) rc = KSI_extendSignature(c, s, &e);
 		else if (kx_kv("pub")) { KSI_PublicationData *pd = NULL; KSI_PublicationRecord *pr = NULL; rc = KSI_PublicationData_fromBase32(c, kx_kv("pub"), &pd); if (rc) { kx_out(" stage=pub"); return rc; }
-			KSI_PublicationRecord_new(c, &pr); KSI_PublicationRecord_setPublishedData(pr, pd); rc = KSI_Signature_extend(s, c, pr, &e); KSI_PublicationRecord_free(pr); }
-		else if (kx_kv("to")) { KSI_Integer *t = NULL; KSI_Integer_new(c, kx_kvu("to", 0), &t); rc = KSI_Signature_extendTo(s, c, t, &e); KSI_Integer_free(t); }
+			rc = KSI_PublicationRecord_new(c, &pr); if (rc) { KSI_PublicationData_free(pd); kx_out(" stage=pubrec"); return rc; }
+			KSI_PublicationRecord_setPublishedData(pr, pd); rc = KSI_Signature_extend(s, c, pr, &e); KSI_PublicationRecord_free(pr); }
+		else if (kx_kv("to")) { KSI_Integer *t = NULL; rc = KSI_Integer_new(c, kx_kvu("to", 0), &t); if (rc) { kx_out(" stage=to"); return rc; } rc = KSI_Signature_extendTo(s, c, t, &e); KSI_Integer_free(t); }
 		else rc = KSI_Signature_extendTo(s, c, NULL, &e);
 		if (rc != KSI_OK) out_ksi_err(c);
 		if (rc != KSI_OK && e) kx_out(" objonerr=1");
 		if (rc == KSI_OK && e) out_sig("sig", e);
 		KSI_Signature_free(*slot); *slot = e; return rc; }
+	if (is("blocksign")) { /* blocksign <c> <nleaves> <masking 0|1> <meta 0|1> <seed>: whole block signer life cycle; signatures of all leaves are verified internally */
+		KSI_CTX *c = kx_ctx(atoi(tok[1])); int n = atoi(tok[2]), masking = atoi(tok[3]), meta = atoi(tok[4]); unsigned seed = (unsigned)atoi(tok[5]); int i, rc; int nsig = 0;
+		KSI_BlockSigner *bs = NULL; KSI_BlockSignerHandle *h[64]; KSI_DataHash *prev = NULL; KSI_OctetString *iv = NULL; unsigned char ivb[32];
+		if (n > 64) n = 64; memset(h, 0, sizeof h);
+		if (masking) { for (i = 0; i < 32; i++) ivb[i] = (unsigned char)(seed + (unsigned)i); rc = KSI_OctetString_new(c, ivb, 32, &iv); if (rc) goto bs_done; rc = KSI_DataHash_createZero(c, KSI_HASHALG_SHA2_256, &prev); if (rc) goto bs_done; }
+		rc = KSI_BlockSigner_new(c, KSI_HASHALG_SHA2_256, prev, iv, &bs); if (rc) goto bs_done;
+		for (i = 0; i < n; i++) {
+			KSI_DataHash *dh = NULL; KSI_MetaData *md = NULL; unsigned char data[8];
+			memcpy(data, &seed, 4); memcpy(data + 4, &i, 4);
+			rc = KSI_DataHash_create(c, data, 8, KSI_HASHALG_SHA2_256, &dh); if (rc) goto bs_done;
+			if (meta) { KSI_Utf8String *cid = NULL; rc = KSI_MetaData_new(c, &md); if (rc) { KSI_DataHash_free(dh); goto bs_done; }
+				rc = KSI_Utf8String_new(c, "client", 7, &cid); if (rc) { KSI_MetaData_free(md); KSI_DataHash_free(dh); goto bs_done; }
+				rc = KSI_MetaData_setClientId(md, cid); KSI_Utf8String_free(cid); /* the setter takes its own reference */ if (rc) { KSI_MetaData_free(md); KSI_DataHash_free(dh); goto bs_done; } }
+			rc = KSI_BlockSigner_addLeaf(bs, dh, 0, md, &h[i]);
+			KSI_DataHash_free(dh); KSI_MetaData_free(md);
+			if (rc) goto bs_done;
+		}
+		rc = KSI_BlockSigner_closeAndSign(bs); if (rc) goto bs_done;
+		for (i = 0; i < n; i++) { KSI_Signature *sg = NULL; KSI_DataHash *dh = NULL; unsigned char data[8]; int r2;
+			rc = KSI_BlockSignerHandle_getSignature(h[i], &sg); if (rc) goto bs_done;
+			memcpy(data, &seed, 4); memcpy(data + 4, &i, 4);
+			rc = KSI_DataHash_create(c, data, 8, KSI_HASHALG_SHA2_256, &dh); if (rc) { KSI_Signature_free(sg); goto bs_done; }
+			r2 = KSI_Signature_verifyWithPolicy(sg, dh, 0, KSI_VERIFICATION_POLICY_INTERNAL, NULL);
+			KSI_DataHash_free(dh); KSI_Signature_free(sg);
+			if (r2 == KSI_OK) nsig++; else if (r2 == KSI_VERIFICATION_FAILURE) kx_out(" badsig=%d", i); else { rc = r2; goto bs_done; }
+		}
+bs_done:
+		kx_out(" nsig=%d", nsig);
+		for (i = 0; i < 64; i++) KSI_BlockSignerHandle_free(h[i]);
+		KSI_BlockSigner_free(bs); KSI_DataHash_free(prev); KSI_OctetString_free(iv);
+		return rc; }
 	if (is("getconf")) { /* getconf <c> aggr|ext */
 		KSI_CTX *c = kx_ctx(atoi(tok[1])); KSI_Config *cfg = NULL; int rc = !strcmp(tok[2], "aggr") ? KSI_receiveAggregatorConfig(c, &cfg) : KSI_receiveExtenderConfig(c, &cfg);
 		if (rc == KSI_OK && cfg) { char b[512]; fmt_config(cfg, b, sizeof b); kx_out(" config=%s", b); } else out_ksi_err(c);
@@ -380,7 +413,8 @@ int kx_net_dispatch(char **tok, int ntok, int *handled) {
 	if (is("async_add")) { /* async_add <a> <c> sign <imprint> <level> <tag> | ext <aggrtime> <pubtime|-> <tag> | conf <tag> */
 		KSI_AsyncService *s = *kx_asvcslot(atoi(tok[1])); KSI_CTX *c = kx_ctx(atoi(tok[2])); KSI_AsyncHandle *h = NULL; int rc; const char *tag; KSI_PublicationRecord *borrowed_pr = NULL;
 		if (!strcmp(tok[3], "sign")) { KSI_DataHash *dh = hash_arg(c, tok[4], &rc); KSI_AggregationReq *rq = NULL; KSI_Integer *lv = NULL; if (!dh) return rc;
-			KSI_AggregationReq_new(c, &rq); KSI_AggregationReq_setRequestHash(rq, dh); if (atoi(tok[5]) > 0) { KSI_Integer_new(c, strtoull(tok[5], NULL, 0), &lv); KSI_AggregationReq_setRequestLevel(rq, lv); }
+			rc = KSI_AggregationReq_new(c, &rq); if (rc) { KSI_DataHash_free(dh); return rc; }
+			KSI_AggregationReq_setRequestHash(rq, dh); if (atoi(tok[5]) > 0) { rc = KSI_Integer_new(c, strtoull(tok[5], NULL, 0), &lv); if (rc) { KSI_AggregationReq_free(rq); return rc; } KSI_AggregationReq_setRequestLevel(rq, lv); }
 			rc = KSI_AsyncAggregationHandle_new(c, rq, &h); if (rc) { KSI_AggregationReq_free(rq); return rc; } tag = tok[6]; }
 		else if (!strcmp(tok[3], "ext")) { KSI_ExtendReq *rq = NULL; KSI_Integer *a = NULL, *p = NULL; KSI_ExtendReq_new(c, &rq); KSI_Integer_new(c, strtoull(tok[4], NULL, 0), &a); KSI_ExtendReq_setAggregationTime(rq, a);
 			if (strcmp(tok[5], "-")) { KSI_Integer_new(c, strtoull(tok[5], NULL, 0), &p); KSI_ExtendReq_setPublicationTime(rq, p); }
@@ -388,9 +422,11 @@ int kx_net_dispatch(char **tok, int ntok, int *handled) {
 		else if (!strcmp(tok[3], "extsig")) { KSI_Signature *sg = *kx_sigslot(atoi(tok[4])); KSI_PublicationRecord *pr = NULL; KSI_PublicationData *pd = NULL;
 			if (strcmp(tok[5], "-")) { rc = KSI_PublicationData_fromBase32(c, tok[5], &pd); if (rc) return rc; KSI_PublicationRecord_new(c, &pr); KSI_PublicationRecord_setPublishedData(pr, pd); }
 			rc = KSI_AsyncExtendingHandle_new(c, sg, pr, &h); if (rc) { KSI_PublicationRecord_free(pr); return rc; } borrowed_pr = pr; tag = tok[6]; }
-		else if (!strcmp(tok[3], "signconf")) { KSI_AggregationReq *rq = NULL; KSI_Config *cfg = NULL; KSI_AggregationReq_new(c, &rq); KSI_Config_new(c, &cfg); KSI_AggregationReq_setConfig(rq, cfg); rc = KSI_AsyncAggregationHandle_new(c, rq, &h); if (rc) { KSI_AggregationReq_free(rq); return rc; } tag = tok[4]; }
+		else if (!strcmp(tok[3], "signconf")) { KSI_AggregationReq *rq = NULL; KSI_Config *cfg = NULL; rc = KSI_AggregationReq_new(c, &rq); if (rc) return rc;
+			rc = KSI_Config_new(c, &cfg); if (rc) { KSI_AggregationReq_free(rq); return rc; } KSI_AggregationReq_setConfig(rq, cfg); rc = KSI_AsyncAggregationHandle_new(c, rq, &h); if (rc) { KSI_AggregationReq_free(rq); return rc; } tag = tok[4]; }
 		else return -1;
 		{ TagCtx *tc = calloc(1, sizeof *tc); snprintf(tc->tag, sizeof tc->tag, "%s", tag); tc->pr = borrowed_pr; KSI_AsyncHandle_setRequestCtx(h, tc, tag_free); }
+		/* HA services keep their own request context on sub-requests: only handles that carry our context are tagged */
 		rc = KSI_AsyncService_addRequest(s, h);
 		if (rc != KSI_OK) KSI_AsyncHandle_free(h);
 		else { KSI_uint64_t id = 0; KSI_AsyncHandle_getRequestId(h, &id); kx_out(" reqid=%llu", (unsigned long long)id); }
